@@ -5,11 +5,11 @@ import json, subprocess, sys
 CHECKS = {
  "C01": dict(engine="nodesim", cat="exploration", ref="DESIGN.md §3 C01",
    technique="runtime monitoring: online agreement monitor over commit callbacks of real nodes in a harness-scheduled network",
-   text="Every delivery of block i by any full-history node is compared, at the commit callback, with the first delivery of block i anywhere (index, round-received, payload, receipts, frame hash, peer-set hash, timestamp, state hash); store views are re-compared after every step. Histories are seeded random schedules of real Node objects (lagging node, silent minority, healing partition, split view, truncated/dropped/stale syncs, joins/leaves). Held means: no disagreement on the executions listed in the evidence.",
+   text="Every delivery of block i by any full-history node is compared, at the commit callback, with the first delivery of block i anywhere (index, round-received, payload, receipts, frame hash, peer-set hash, timestamp, state hash); store views are re-compared after every step. Histories are seeded random schedules of real Node objects (lagging node, silent minority, healing partition, split view, truncated/dropped/stale syncs, joins/leaves, transient frame-write failures), fixed and searched long-election DAGs delivered to real Hashgraph instances in different arrival orders, and live soak runs (real goroutines, TCP, concurrent submitters and readers). Held means: no disagreement on the executions listed in the evidence. One recorded known finding (late validator-set change, narrow signature).",
    note="Trusted: the simulator's synchronous transport is faithful to one-lock-hold-per-step; no equivocation generated; hooks are read-only."),
  "C02": dict(engine="nodesim", cat="exploration", ref="DESIGN.md §3 C02",
    technique="runtime monitoring: callback-sequence monitor plus re-reads of delivered blocks after every step",
-   text="Per node: commit callbacks must have consecutive indexes (0, or anchor+1 after a reset) and strictly increasing round-received; every delivered index is re-read from the store (recent ones every step, all periodically) and must equal the delivered body plus the application's response; signature maps may only grow.",
+   text="Per node: commit callbacks must have consecutive indexes (0, or anchor+1 after a reset) and strictly increasing round-received; every delivered index is re-read from the store (recent ones every step, all periodically) and must equal the delivered body plus the application's response; the set of signers may only grow. Includes in-place fast-forward resets served by the peer with the oldest anchor, transient frame-write failures in the middle of a consensus pass, and live soak runs with concurrent readers.",
    note="Reads happen between lock holds (single-threaded simulator). In-memory stores are not judged for blocks they evicted."),
  "C04": dict(engine="nodesim", cat="exploration", ref="DESIGN.md §3 C04",
    technique="runtime monitoring: delivered blocks joined with the harness's own DAG record (ancestry DFS, payload concatenation)",
@@ -17,11 +17,11 @@ CHECKS = {
    note="The DAG record is built from what real stores expose; unique transaction ids make the join unambiguous."),
  "C05": dict(engine="nodesim", cat="exploration", ref="DESIGN.md §3 C05",
    technique="runtime monitoring with fault injection: multiset conservation monitor over submissions, pools, own events and commits",
-   text="After every step: committed multiset <= submitted multiset per node; submitted(X) = pool(X) + payload(own events of X) for every running node X, under dropped/truncated/stale syncs, bursts, duplicate-content/empty/binary/large transactions and transactions added from inside the commit callback; after a fair suffix every transaction accepted by a running node is committed exactly as often as submitted on every full-history node.",
+   text="After every step: committed multiset <= submitted multiset per node; submitted(X) = pool(X) + payload(own events of X) for every running node X, under dropped/truncated/stale syncs, bursts, duplicate-content/empty/binary/large transactions and transactions added from inside the commit callback; after a fair suffix every transaction accepted by a running node is committed exactly as often as submitted on every full-history node. Includes storage write failures on first writes and live soak runs whose submitters overwrite their buffer after SubmitTx returned.",
    note="A restarted node legitimately loses its pool; the property only speaks about nodes that keep running."),
  "C06": dict(engine="nodesim", cat="exploration", ref="DESIGN.md §3 C06",
    technique="runtime monitoring: bounded-progress check (logical all-pairs cycles) after adversarial prefixes",
-   text="Liveness restated as bounded progress: after any random prefix (all shapes and faults, a minority < n/3 silent from any point, possibly for good), at most 60 fair all-pairs cycles with the default sync limit must leave every live node idle with all payload events, transactions and membership requests committed and equal chain lengths. The evidence reports the cycles actually needed.",
+   text="Liveness restated as bounded progress: after any random prefix (all shapes and faults, a minority < n/3 silent from any point, possibly for good), at most 60 fair all-pairs cycles with the default sync limit must leave every live node idle with all payload events, transactions and membership requests committed and equal chain lengths. Includes in-place fast-forwards, membership requests arriving while idle and two leave requests in quick succession; the two-thirds premise is computed from the harness's own replay of delivered receipts. The evidence reports the cycles actually needed.",
    note="An unbounded eventually is out of reach for runtime monitoring; the bound is a fixed constant far above what was observed. No equivocation."),
  "C10": dict(engine="nodesim", cat="exploration", ref="DESIGN.md §3 C10",
    technique="runtime monitoring: per-node replay of delivered receipts compared with the node's round->validator-set function after every step",
@@ -33,7 +33,7 @@ CHECKS = {
    note="For n>1500 the PeerSet is assembled from the same exported fields NewPeerSet fills (maps shared between successive n). Refusal of sufficient signatures is not flagged."),
  "C03": dict(engine="dagcheck", cat="exploration", ref="DESIGN.md §3 C03",
    technique="runtime monitoring: differential execution of one DAG by many real Hashgraph instances (orders, stores, caches, batchings, sub-DAGs)",
-   text="Each seeded synthetic DAG is executed by a reference real Hashgraph and ~14 variants (random linear extensions, fresh process state, Badger, cache sizes from the measured in-flight bound, batched consensus passes, downward-closed sub-DAGs); per-event round/witness/Lamport/fame/round-received and all blocks must be identical (prefix for sub-DAGs). Batching differences are a recorded known finding; every other dimension is strict.",
+   text="Each seeded synthetic DAG is executed by a reference real Hashgraph and ~14 variants (random linear extensions, fresh process state, Badger, cache sizes from the measured in-flight bound, batched consensus passes, downward-closed sub-DAGs); per-event round/witness/Lamport/fame/round-received and all blocks must be identical (prefix for sub-DAGs). Fixed shapes (long election, straggler witness), uneven creator activity, descendants-last orders and creation-order prefixes are part of every run. All dimensions are strict (the former batching finding is repaired).",
    note="Static validator set; variants ending in a store-miss error below the default cache are outside the supported range and dropped (counted)."),
  "C07": dict(engine="dagcheck", cat="exploration", ref="DESIGN.md §3 C07",
    technique="runtime monitoring over an input grammar: tampered insertion attempts against a harness-side admission predicate plus state-digest and listing invariants",
@@ -45,7 +45,7 @@ CHECKS = {
    note="In-process tier stops a case at its first panic; process death in the TCP tier is reported through the worker's exit. WebRTC not exercised."),
  "C09": dict(engine="nodesim+puppet", cat="exploration", ref="DESIGN.md §3 C09",
    technique="runtime monitoring: invariant scan of stored block signatures and the anchor after every step, under adversarial signature payloads from puppet validators and pool injection",
-   text="Histories with puppet validators (< n/3) gossiping hostile block signatures, plus valid signatures by strangers / removed / not-yet-effective validators injected into pools. After every step: each recorded signature verifies against the node's own body and its signer is in the block's round set; the anchor has > n/3 valid distinct signatures and never moves backwards; honest nodes only sign delivered blocks over the final body.",
+   text="Histories with puppet validators (< n/3) gossiping hostile block signatures, plus valid signatures by strangers / removed / not-yet-effective validators injected into pools. After every step: each recorded signature verifies against the node's own body and its signer is in the block's round set; the anchor has > n/3 valid distinct signatures and never moves backwards; honest nodes only sign delivered blocks over the final body, also when their application sits behind the real socket proxy pair and becomes unreachable twice.",
    note="Puppets never equivocate; the harness verifies signatures itself."),
  "C12": dict(engine="nodesim+tamperer", cat="exploration", ref="DESIGN.md §3 C12",
    technique="runtime monitoring over mutations of valid inputs: reference acceptance rule plus full state digest around core.fastForward and the node-level flow",
@@ -53,7 +53,7 @@ CHECKS = {
    note="A rule-satisfying response being refused is not flagged."),
  "C13": dict(engine="nodesim", cat="exploration", ref="DESIGN.md §3 C13",
    technique="runtime monitoring: agreement / validator-set / frame monitors extended to fast-forwarded nodes in histories with resets",
-   text="Histories with validators that lose their data and reset from an honest anchor (any serving peer, chained), fast-sync joiners, anchors inside pending membership windows; reset nodes' blocks from anchor+1, their validator-set function and all nodes' frames per round are compared after every step.",
+   text="Histories with validators that lose their data and reset from an honest anchor (any serving peer, chained), fast-sync joiners, anchors inside pending membership windows (including resets triggered while two validator-set changes are pending, followed by a third change); reset nodes' blocks from anchor+1, their validator-set function and all nodes' frames per round are compared after every step.",
    note="A reset node is judged only for as long as it can insert what it receives (property's own escape clause)."),
  "C14": dict(engine="nodesim+forger", cat="exploration", ref="DESIGN.md §3 C14",
    technique="runtime monitoring over forged inputs: forged self-signed validator sets offered to victims under a state digest",
@@ -65,7 +65,7 @@ CHECKS = {
    note="Any value between the two middle elements counts as the median for even counts."),
  "C11": dict(engine="nodesim+crash", cat="fault_enumeration", ref="DESIGN.md §3 C11",
    technique="runtime monitoring with fault injection: crash points at every kind of store write (in-process) and real SIGKILL of a child process, then bootstrap and comparison with durable logs",
-   text="Each case is one crash point: the victim's store dies at its k-th write call (before or after the write reached the database; k spread over the history; all write kinds) or a child process running an all-Badger network SIGKILLs itself at such a call without closing anything. The node is rebuilt from its database with bootstrap: re-delivered blocks must equal the application's durable log, completed-writes subset of known events subset of attempted-writes, head/seq restored, no height reused afterwards, agreement with the rest of the network after a continuation schedule. Clean shutdowns included.",
+   text="Each case is one crash point: the victim's store dies at its k-th write call (before or after the write reached the database; k spread over the history; all write kinds) or a child process running an all-Badger network SIGKILLs itself at such a call without closing anything. The node is rebuilt from its database with bootstrap: re-delivered blocks must equal the application's durable log, completed-writes subset of known events subset of attempted-writes, head/seq restored, no height reused afterwards, agreement with the rest of the network after a continuation schedule. Clean shutdowns, second stops after a first bootstrap, and events the victim must refuse (offered by a relay before the crash) included.",
    note="Process kill, not machine crash. In-process points release the Badger handle via Close; real kills are the SIGKILL tier. Stores reset by fast-sync excluded (bootstrap from 0 only)."),
  "C15": dict(engine="dagcheck", cat="exploration", ref="DESIGN.md §3 C15",
    technique="runtime monitoring: round-trip equalities over generated events/blocks/frames through the real wire, JSON, database and canonical encodings",
